@@ -98,6 +98,9 @@ def fuzzjob(pkg, target, seconds):
 
 def seeded(name, pkg, run, checks, shards, **kw):
     j = dict(name=name, pkg=pkg, run=run, checks=checks, shards=shards)
+    # end-to-end cases run goroutines of the library: a panic there kills the process, so the running case is always journalled
+    if pkg == "e2e":
+        j["journal"] = True
     j.update(kw)
     return j
 
@@ -349,6 +352,7 @@ PROPS["C01"] = dict(
     jobs=lambda tier: [
         seeded("delivery", "e2e", "^TestC01$", 50 if tier == "quick" else 1200, 8 if tier == "quick" else 16, timeout=3400),
         seeded("delivery-secure", "e2e", "^TestC01Secure$", 25 if tier == "quick" else 600, 8 if tier == "quick" else 16, timeout=3400),
+        seeded("keepalive", "e2e", "^TestC01Keep$", 12 if tier == "quick" else 300, 8 if tier == "quick" else 16, timeout=3400),
     ],
 )
 
@@ -426,6 +430,7 @@ PROPS["C13"] = dict(
     jobs=lambda tier: [
         seeded("closes", "e2e", "^TestC13$", 100 if tier == "quick" else 3000, 16, timeout=900 if tier == "quick" else 3400, journal=True, shrinktime="30s"),
         seeded("client-close", "e2e", "^TestC13ClientClose$", 150 if tier == "quick" else 3000, 8, timeout=900 if tier == "quick" else 3400, journal=True, shrinktime="30s"),
+        seeded("ghost", "e2e", "^TestC13Ghost$", 40 if tier == "quick" else 600, 8, timeout=900 if tier == "quick" else 3400, journal=True, shrinktime="30s"),
     ] + ([seeded("closes-race", "e2e", "^TestC13$", 400, 8, timeout=3400, journal=True, race=True, shrinktime="30s")] if tier == "thorough" else []),
 )
 
@@ -454,6 +459,7 @@ PROPS["C18"] = dict(
         seeded("sizes", "e2e", "^TestC18$", 400 if tier == "quick" else 6000, 16, timeout=900 if tier == "quick" else 3400),
         seeded("start", "e2e", "^TestC18Start$", 2000 if tier == "quick" else 50000, 1, timeout=900),
         seeded("axis", "e2e", "^TestC18Axis$", 150 if tier == "quick" else 3000, 2, timeout=900),
+        seeded("mki", "e2e", "^TestC18MKI$", 150 if tier == "quick" else 3000, 2, timeout=900),
     ],
 )
 
@@ -514,3 +520,61 @@ PROPS["C17"] = dict(
         seeded("downgrade", "e2e", "^TestC17Downgrade$", 60 if tier == "quick" else 1000, 1, timeout=900),
     ],
 )
+
+
+# ---- amendments to the stated rules (third round of seeded changes, thorough-tier sweep) ----
+def _amend(prop, old, new):
+    r = PROPS[prop]["rule"]
+    assert r.count(old) == 1, (prop, old[:50])
+    PROPS[prop]["rule"] = r.replace(old, new)
+
+
+_amend("C01", "burst (up to 2*queue+8 packets), join, pause, play, leave. Oracle",
+       "burst (up to 2*queue+8 packets), join, pause, play, leave, and - with a burst being written by another goroutine meanwhile - a reader that "
+       "pauses, leaves, or pauses and resumes as often as the burst lasts (responses and frames share its connection; the queue hand-over happens with "
+       "packets in flight); every third reader of a multi-media stream sets up only a subset of the medias. Oracle")
+_amend("C01", "or the writer itself refused the packet. Non-trivial: >=2 formats",
+       "or the writer itself refused the packet; nothing is delivered for a media the reader did not set up, and what is written while a reader pauses "
+       "or leaves is owed to the other readers only (whatever of it reaches that reader is still judged for identity and order). Non-trivial: >=2 formats")
+_amend("C10", "or wrong in one way (password, user, nonce, realm, URL, method; an unparsable header counts as none): no credentials",
+       "or wrong in one way (password, user, nonce, realm, URL, method; an unparsable header counts as none); a third of the steps that open a new "
+       "connection carry credentials on its very first request, computed from the challenge an earlier connection got (pre-emptive Basic is judged as "
+       "usual, a Digest answer to a nonce this connection never issued is wrong): no credentials")
+_amend("C11", "36 hostile Transport values,",
+       "38 hostile Transport values (among them client ports the server cannot send to, which a quarter of the UDP record templates use from the "
+       "start), the secure variant of a SETUP spliced in (SAVP transport with a valid MIKEY KeyMgmt header made by the library's own key exchange code),")
+_amend("C12", "injected frames and server requests, 401 with 11 kinds",
+       "injected frames and server requests (the media the scripted server sends after PLAY alternates the payload types of the ordinary medias and "
+       "of the back channel, on every channel), 401 with 11 kinds")
+_amend("C13", "finally whatever is left is closed. Oracle:",
+       "finally whatever is left is closed; in a quarter of the cases one more TCP connection reaches the listener before the close operations but is "
+       "handed to the server (through the public Listen hook) only while the server shuts down. Oracle:")
+_amend("C13", "back to what it was before the server started. A second generator",
+       "back to what it was before the server started; the peer of the connection accepted during shutdown sees it end within 2 s. A second generator")
+_amend("C13", "Close returns within the bound and leaves no goroutine or socket. Non-trivial:",
+       "Close returns within the bound and leaves no goroutine or socket. A third generator (kind ghost): a UDP reader, a UDP reader with an ONVIF back "
+       "channel or a UDP publisher (scripted peer on fixed ports) exchanges 1..6 packets with the application, the session ends by TEARDOWN, by "
+       "ServerSession.Close or by its timeout, and then 1..8 datagrams (RTP of the negotiated or of another payload type, 3-byte junk, RTCP) arrive from "
+       "the very ports it had negotiated: none of them may reach the application as a packet, decode-error or loss callback after the session's close "
+       "notification (non-trivial there: the application saw the peer's packets while the session was alive). Non-trivial:")
+_amend("C17", "(UDP, then the library's own switch to TCP because no datagram arrives) and optionally a publisher;",
+       "(UDP, then the library's own switch to TCP because no datagram arrives), optionally a publisher, and in a third of the cases a second reader of "
+       "the same stream that negotiated the plain profile over TCP (legitimate inside TLS; its connection is not tapped);")
+_amend("C16", "per-producer and real-time FIFO among items accepted before Close was invoked,",
+       "per-producer and real-time FIFO among all executed items (also those pushed while Close was in progress: the stream goroutine pushes to a writer "
+       "the session goroutine is closing),")
+_amend("C16", "of length 1..8 for capacities 1, 2, 4 against a slice model",
+       "of length 1..8 for capacities 1, 2, 4 against a slice model (pushes after close included: a closed ring may accept, drop or refuse them and may "
+       "report the end at any time, but what it hands out comes in acceptance order)")
+_amend("C16", "incl. Close before Start and Start after Close, compared step by step",
+       "incl. Close before Start, Start after Close and pushes after the Close of a started processor, compared step by step")
+_amend("C18", "Distinct by case hash.",
+       "(mki) a scripted secure publisher over UDP whose MIKEY message names its key with an identifier of 0, 1, 4, 8 or 16 bytes; the application writes "
+       "RTCP packets of limit-12..limit+12 (and far below) to that session with ServerSession.WritePacketRTCP and no datagram larger than the maximum may "
+       "leave the server, whatever its key context appends. Distinct by case hash.")
+_amend("C01", "Non-trivial: >=2 formats",
+       "A second generator (kind keepalive): a scripted reader over interleaved TCP (plain or inside TLS) that keeps 1..4 GET_PARAMETER / OPTIONS / "
+       "SET_PARAMETER requests in flight while 50..500 packets per media (4..1460 bytes) are written to a two-media stream, so that responses and frames "
+       "share one byte stream for the whole run: the stream must stay parseable, every frame is on a negotiated channel and carries the next written "
+       "packet of its media with the written payload, nothing is missing unless a queue-full error was reported, and responses come in request order "
+       "(non-trivial there: >=100 frames and >=3 responses). Non-trivial: >=2 formats")
